@@ -115,6 +115,7 @@ class Crate:
         self.name = d["crate"]
         self.config = d["config"]
         self.adts = d["adts"]
+        self.ext_adts = d.get("ext_adts", {})
         self.statics = d["statics"]
         self.fns = [Fn(f, self.name) for f in d["fns"]]
         self.by_path = {}
